@@ -125,6 +125,16 @@ def runDInsert (st : DState) (ops : List DOp) : DState := ops.foldl deriveInsert
 def materialise (h : Heap Nat) (s : StreamV) : List Nat × List Nat :=
   (view h s.lc, view h s.lc)
 
+/-- Several stream values materialised at OVERLAPPING times (the inputs of `ZipN` / a join, or one consumed inside the
+    consumer callback of another; the same value may occur more than once).  A lifecycle element is a stateless pair of
+    callbacks (sync_util.go:10-21: `mu.Lock()` / `mu.Unlock()`, nothing captured per derivation), so every
+    materialisation runs `doOpenStream` / `doCloseSubStream` over ITS OWN slice whatever else is open: the ids opened
+    (closed) are, in the order the materialisations start (end), the concatenation of the individual lists — as a
+    multiset, the union of the paths.  The order in which overlapping materialisations interleave is not modelled:
+    `Props.C17.Shuffle` quantifies over it. -/
+def materialiseMany (h : Heap Nat) (ss : List StreamV) : List Nat × List Nat :=
+  (ss.flatMap (fun s => (materialise h s).1), ss.flatMap (fun s => (materialise h s).2))
+
 def applyData : DataOp → List Int → List Int
   | .filterEven, l => l.filter (fun v => v % 2 == 0)
   | .mapAdd10, l => l.map (· + 10)
